@@ -31,6 +31,9 @@ def jobs(tier):
                  workers=8))
     J.append(seq(len=6, keys=4, hmap=1, alpha_seq=1, nresize=12, flags=1, workers=8))                           # lazy + explicit
     J.append(seq("1,0,0,0", len=4, keys=4, hmap=1, alpha_seq=1, nresize=12, flags=1, workers=8))
+    for mx in (1, 2, 4):   # lazy growth must stop at max_nr_buckets
+        J.append(seq(len=6, keys=4, hmap=1, alpha_seq=1, nresize=3, flags=1, maxb=mx, workers=8))
+        J.append(seq(len=6, keys=4, hmap=0, alpha_seq=1, nresize=3, flags=3, count_commit_order=0, maxb=mx, workers=8))
     J.append(seq("1,0,0,0", len=4, keys=2, hmap=1, alpha_seq=1, nresize=6, flags=3, count_commit_order=0, workers=8))
     # (b) concurrent
     rd = prog((K_LOOKUP, 0), (K_LOOKUP, 1), (K_WALKALL, 0))
@@ -53,6 +56,7 @@ def jobs(tier):
     lz = dict(flags=1, hmap=1, ninit=3, init_keys=0x210)
     J.append(conc("2,0,0,0", prog0=prog((K_ADD, 3)), prog1=prog((K_RESIZE, 1)), prog2=prog((K_LOOKUP, 0), (K_LOOKUP, 2)), **lz))
     J.append(conc("2,0,0,0", prog0=prog((K_ADD, 3), (K_DEL, 3), (K_DEL, 2), (K_DEL, 1), (K_DEL, 0)), final_destroy=1, settle_end=0, **lz))
+    J.append(conc("2,0,0,0", maxb=2, prog0=prog((K_ADD, 3)), prog1=prog((K_LOOKUP, 0), (K_WALKALL, 0)), **lz))
     J.append(conc("2,0,0,0", flags=3, hmap=1, count_commit_order=0, ninit=1, init_keys=0, prog0=prog((K_ADD, 1), (K_ADD, 2)),
                   prog1=prog((K_LOOKUP, 0), (K_WALKALL, 0))))
     return J
